@@ -75,6 +75,7 @@ def xarray_dataset_from_results(
     """Load the xarray dataset from the results as returned by `pipefunc.Pipeline.map`."""
     mapspecs = pipeline.mapspecs()
     output_names = sorted(results.keys())
+    inputs = {**pipeline.defaults, **inputs}  # a mapped input may be supplied by a default
     return _xarray_dataset(
         mapspecs,
         inputs,
